@@ -235,7 +235,7 @@ def serializer_model_part(rep, pid, tier):
             evs.append((eid, '[id |-> %d, p |-> "C06", j0 |-> %s, j1 |-> %s]'
                         % (eid, tlajson_to_tla(b["j_t"]), tlajson_to_tla(b["back_t"]))))
         if evs:
-            rej, _adj = df.adjudicate(evs, parallel=12)
+            rej, _adj = df.adjudicate(evs, parallel=8)
             for eid, clause in sorted(rej.items()):
                 st, b = idx[eid]
                 key = ("C06", clause) if clause == "definition-names-differ-only" else \
@@ -367,7 +367,7 @@ def run(pid, tier, replay_file=None):
     adj = dict(events=0, tlc_states=0)
     if events:
         try:
-            rejected, adj = df.adjudicate(events, parallel=12)
+            rejected, adj = df.adjudicate(events, parallel=8)
         except ValueError as exc:
             raise MachineryError(f"cannot encode an observation for TLC: {exc}")
         for eid in sorted(rejected):
